@@ -7,6 +7,10 @@
  *   LIT_FN      stringlit | charconst          LIT_Q     '"' | '\''          LIT_KIND  TSTRINGLIT | TCHARCONST
  *   LIT_SELECT  which inputs (expression over g_lit)          LIT_CANARY  a reachable input
  *
+ * Spelling buffer: an allocated buffer of LIT_CAP bytes (the real initial capacity is 256; bufadd() does not depend on
+ * the value, only on len < cap, and a 256-byte object costs a 256-way case split per stored character) that is larger
+ * than prefix + window, so that bufadd()'s growth branch is unreachable (asserted); growth itself is SCAN.bufadd's.
+ *
  * Entry state = what scankind() hands over (SCAN.ident proves it): the scanner stands on the opening quote; an encoding
  * prefix of g_P = 0..2 characters has been collected into the spelling buffer (usebuf set iff there is one).
  *
@@ -14,13 +18,13 @@
  * offending construct) and then does not return; "noreturn_macros": false in the unit headers for that reason.
  */
 #ifndef GS_LMAX
-#define GS_LMAX 10
+#define GS_LMAX 6
 #endif
 #ifndef GS_KMAX
 #define GS_KMAX 1
 #endif
 #ifndef LIT_CAP
-#define LIT_CAP 256
+#define LIT_CAP 16
 #endif
 #define GS_SPL 4
 #define GS_NO_TABLES
